@@ -237,7 +237,7 @@ package cmd
 //@   assume now != 0 && now - from <= 2147483647 at filename
 //@   modifies ghost(nopen, 0), ghost(nlocked, 0)
 //@   ensures no_leak: ghost(nopen, 0) == old(ghost(nopen, 0)) && ghost(nlocked, 0) == old(ghost(nlocked, 0))
-//@   check notexist: ispathne(callret(readWhisperFileLocal, 2)) ==> result0 == nil
+//@   check notexist: called(readWhisperFileLocal) && ispathne(callret(readWhisperFileLocal, 2)) ==> result0 == nil
 //@ loop (*app).handleView#0
 //@   invariant bounds: 0 <= i && i <= len(h.archiveInfoList)
 //@   invariant buf: (len(buf) == 0 && buf.arr == 0) || buf.arr > old(top)
@@ -333,8 +333,11 @@ package cmd
 //@   requires c != nil
 //@   modifies ghost(nopen, 0), ghost(nlocked, 0)
 //@   ensures no_leak: ghost(nopen, 0) == old(ghost(nopen, 0)) && ghost(nlocked, 0) == old(ghost(nlocked, 0))
+//@   check[C09] verdict: called(globFiles) && result0 == nil ==> !diffFound
 //@ loop (*DiffCommand).execute#0
 //@   invariant bounds: 0 <= iter && iter <= len(filenames)
+//@   invariant mono: prev(diffFound) ==> diffFound
+//@   invariant sets: called("(*DiffCommand).diffOneFile") && callret("(*DiffCommand).diffOneFile", 0) == ErrDiffFound ==> diffFound
 //@   invariant leak: ghost(nopen, 0) == old(ghost(nopen, 0)) && ghost(nlocked, 0) == old(ghost(nlocked, 0))
 
 // ---------------------------------------------------------------- globbing (C08..C12)
@@ -449,7 +452,7 @@ package cmd
 //@   requires a != nil && r != nil
 //@   modifies ghost(nopen, 0), ghost(nlocked, 0)
 //@   ensures no_leak: ghost(nopen, 0) == old(ghost(nopen, 0)) && ghost(nlocked, 0) == old(ghost(nlocked, 0))
-//@   check notexist: ispathne(callret(readWhisperFileRawLocal, 2)) ==> result0 == nil
+//@   check notexist: called(readWhisperFileRawLocal) && ispathne(callret(readWhisperFileRawLocal, 2)) ==> result0 == nil
 //@ loop (*app).handleViewRaw#0
 //@   invariant bounds: 0 <= i && i <= len(h.archiveInfoList)
 //@   invariant buf: (len(buf) == 0 && buf.arr == 0) || buf.arr > old(top)
@@ -460,7 +463,7 @@ package cmd
 //@   assume now != 0 && now - from <= 2147483647 at now
 //@   modifies ghost(nopen, 0), ghost(nlocked, 0)
 //@   ensures no_leak: ghost(nopen, 0) == old(ghost(nopen, 0)) && ghost(nlocked, 0) == old(ghost(nlocked, 0))
-//@   check notexist: ispathne(callret(sumWhisperFileLocal, 2)) ==> result0 == nil
+//@   check notexist: called(sumWhisperFileLocal) && ispathne(callret(sumWhisperFileLocal, 2)) ==> result0 == nil
 //@ loop (*app).handleSum#0
 //@   invariant bounds: 0 <= i && i <= len(h.archiveInfoList)
 //@   invariant buf: (len(buf) == 0 && buf.arr == 0) || buf.arr > old(top)
@@ -468,14 +471,14 @@ package cmd
 //@ func (*app).handleItems
 //@   props C12 C16
 //@   requires a != nil && r != nil
-//@   check notexist: ispathne(callret(globItemsLocal, 1)) ==> result0 == nil
+//@   check notexist: called(globItemsLocal) && ispathne(callret(globItemsLocal, 1)) ==> result0 == nil
 //@ loop (*app).handleItems#0
 //@   invariant bounds: 0 <= iter && iter <= len(items)
 
 //@ func (*app).handleFiles
 //@   props C12 C16
 //@   requires a != nil && r != nil
-//@   check notexist: ispathne(callret(globFilesLocal, 1)) ==> result0 == nil
+//@   check notexist: called(globFilesLocal) && ispathne(callret(globFilesLocal, 1)) ==> result0 == nil
 //@ loop (*app).handleFiles#0
 //@   invariant bounds: 0 <= iter && iter <= len(items)
 
@@ -519,6 +522,7 @@ package cmd
 //@   assume clockOK(db, now) before fetchTimeSeriesList
 //@   assume clockOK(db, now) && timesUpTo(pointsList, now) && separate(pointsList) before updateFileDataWithPointsList
 //@   modifies ghost(nopen, 0), ghost(nlocked, 0), rows(Point), c.ArchiveInfoList[0:len(c.ArchiveInfoList)]
+//@   check[C08] dest_header_is_the_files: destDB != nil && destHeader != nil ==> sameLayout(destHeader.archiveInfoList, destDB.header.archiveInfoList)
 //@   check[C08] layout_checked: result0 == nil ==> srcHeader != nil && destHeader != nil && sameLayout(srcHeader.archiveInfoList, destHeader.archiveInfoList)
 //@                 && len(srcTsList) == len(destTsList) && (forall k :: 0 <= k && k < len(srcTsList) ==> sameShape(srcTsList[k], destTsList[k]))
 //@   check[C08] mismatch_no_write: srcHeader != nil && destHeader != nil && !sameLayout(srcHeader.archiveInfoList, destHeader.archiveInfoList)
@@ -555,6 +559,7 @@ package cmd
 //@   assume clockOK(db, now) before fetchTimeSeriesList
 //@   assume clockOK(db, now) && timesUpTo(pointsList, now) && separate(pointsList) before updateFileDataWithPointsList
 //@   modifies ghost(nopen, 0), ghost(nlocked, 0), rows(Point), c.ArchiveInfoList[0:len(c.ArchiveInfoList)]
+//@   check[C11] dest_header_is_the_files: destDB != nil && destHeader != nil ==> sameLayout(destHeader.archiveInfoList, destDB.header.archiveInfoList)
 //@   check[C11] layout_checked: result0 == nil ==> srcHeader != nil && destHeader != nil && sameLayout(srcHeader.archiveInfoList, destHeader.archiveInfoList)
 //@                 && len(srcTsList) == len(destTsList) && (forall k :: 0 <= k && k < len(srcTsList) ==> sameShape(srcTsList[k], destTsList[k]))
 //@   check[C11] mismatch_no_write: srcHeader != nil && destHeader != nil && !sameLayout(srcHeader.archiveInfoList, destHeader.archiveInfoList)
@@ -586,8 +591,11 @@ package cmd
 //@   requires c != nil
 //@   modifies ghost(nopen, 0), ghost(nlocked, 0)
 //@   ensures no_leak: ghost(nopen, 0) == old(ghost(nopen, 0)) && ghost(nlocked, 0) == old(ghost(nlocked, 0))
+//@   check[C11] verdict: result0 == nil ==> !diffFound
 //@ loop (*SumDiffCommand).execute#0
 //@   invariant bounds: 0 <= iter && iter <= len(items)
+//@   invariant mono: prev(diffFound) ==> diffFound
+//@   invariant sets: called("(*SumDiffCommand).sumDiffItem") && callret("(*SumDiffCommand).sumDiffItem", 0) == ErrDiffFound ==> diffFound
 //@   invariant leak: ghost(nopen, 0) == old(ghost(nopen, 0)) && ghost(nlocked, 0) == old(ghost(nlocked, 0))
 
 // ---------------------------------------------------------------- generate (C20, C16)
